@@ -90,7 +90,8 @@ struct StreamResult {
 StreamResult decode_stream(const uint8_t* p, size_t n, int nfds, uint32_t max_message = (1u << 27));
 
 // Validate one complete frame (exactly len bytes).
-Verdict decode_frame(const uint8_t* p, size_t n, int nfds, Msg* out, std::string* reason, uint32_t max_message = (1u << 27));
+Verdict decode_frame(const uint8_t* p, size_t n, int nfds, Msg* out, std::string* reason, uint32_t max_message = (1u << 27), unsigned relax = 0);
+enum { RELAX_MANDATORY = 1 };  // structural well-formedness only: do not require the fields mandatory for the message type
 
 // What the 16-byte fixed header declares: total frame length, or 0 if <16 bytes.
 // Sets *bad if the early sanity conditions fail.
